@@ -9,6 +9,7 @@ import (
 
 	"github.com/nspcc-dev/neo-go/pkg/core/block"
 	"github.com/nspcc-dev/neo-go/pkg/core/transaction"
+	"github.com/nspcc-dev/neo-go/pkg/crypto/hash"
 	"github.com/nspcc-dev/neo-go/pkg/neorpc/result"
 	"github.com/nspcc-dev/neo-go/pkg/rpcclient/unwrap"
 	"github.com/nspcc-dev/neo-go/pkg/smartcontract/scparser"
@@ -70,6 +71,9 @@ func checkPushOnlyScript(script []byte) error {
 func verifyN3Scripts(nsr N3ScriptRunner, height uint32, acc util.Uint160, invocScript, verifScript []byte, dataHash [sha256.Size]byte) error {
 	if err := checkPushOnlyScript(invocScript); err != nil {
 		return fmt.Errorf("invalid invocation script: %w", err)
+	}
+	if hash.Hash160(verifScript) != acc {
+		return errors.New("verification script mismatches the account")
 	}
 	fullScript := slices.Concat(invocScript, verifScript)
 	signer := transaction.Signer{
